@@ -234,4 +234,17 @@ var specs = []CheckSpec{
 		Assumptions: append([]string{"PART CLAIMED: fresh work directory = archive files, environment built from scratch (documented names, Setup additions, GOCOVERDIR/GORACE pass-through, no other host variable), deferred functions in reverse order on every exit kind, work directory and (after the last script) temp root removed unless retention was requested. NOT claimed: non-interference of scripts running in parallel goroutines, liveness of OS processes started by scripts"}, commonAssumptions...),
 		Outside:     []string{"parallel execution of subtests (t.Parallel is a no-op in the recording T: scripts run one at a time)", "background processes and their termination", "real directory removal semantics beyond the model"},
 	},
+	{
+		ID: "C11", Pkg: "cache",
+		Harnesses: []HarnessSpec{
+			{Fn: "VerifC11OneWriterOneReader", Quick: map[string]int{"L": 1}, Thorough: map[string]int{"L": 2}, Witness: []string{"fresh", "restore-identical", "overwrite", "lookup-hit", "lookup-miss", "getfile-hit", "several-snapshots"}},
+		},
+		Bounds: map[string]string{
+			"quick":    "one writer (PutBytes of <= 1 symbolic byte over an empty cache, or over an earlier complete Put of equal or of different content) and one reader (GetBytes or GetFile of that id): every interleaving of the reader's file operations with the writer's mutations, every write of several bytes visible torn at representative offsets (any offset for short buffers, every field boundary of the index entry); the reader's i-th operation observes snapshot k_i with k_1 <= k_2 <= ... chosen by the solver among the points where the accessed path changed",
+			"thorough": "data <= 2 bytes",
+		},
+		Stubs: []string{"as C05; vfs snapshots after every mutation (torn writes included); observer view re-bound to the chosen snapshot before each operation"},
+		Assumptions: append([]string{"open, truncate, stat, chtimes, unlink are atomic; a single write may be observed half done at a byte boundary; processes share only the file system (goroutines inside one process share nothing else in this code)", "modification times are not observed by Put or by lookups (only by Trim), so the reader's Chtimes commute with the writer (the harness ignores chtimes when forming snapshots)", "SHA-256 as injective pool-digest model (see C05)"}, commonAssumptions...),
+		Outside:     []string{"two or more concurrent writers", "more than one concurrent reader (readers do not influence each other: they only call Chtimes)", "Trim racing with readers or writers"},
+	},
 }
